@@ -25,7 +25,7 @@ def run(tier, t0):
     ln = lane.lanes(prog, 40)
     ln.obs = [o for o in ln.obs if o.function == 'link_function_mips' or o.file == 'core/imports_get_int.cpp']
     ln.floor = 4
-    results = [link.swap(prog, scope, 20), link.link_order(prog), link.reloc(prog), ln,
+    results = [link.swap(prog, scope, 20), link.link_order(prog), link.reloc(prog), link.name_exact(prog), ln,
                sym.find_exhaustive(prog, lambda f: f.file in ('core/Linker.cpp', 'core/imports_ar.cpp', 'core/imports_obj.cpp'), 4),
                err.err1(prog, scope, table, floor=3), err.err2(prog, scope, table, floor=3)]
     return report.finish('C20', tier, results, EXPLANATION, [], common.TRUSTED, t0)
